@@ -52,7 +52,13 @@ def self_of_call(t):
     ca = t.get("callee_args") or ""
     m = re.match(r"^<(.*) as [^<>]*(?:<.*>)?>::\w+(?:::<.*>)?$", ca)
     if m:
-        return norm_ty(m.group(1))
+        x = norm_ty(m.group(1))
+        ga = t.get("gargs") or []
+        if ga and "::" not in x and "::" in ga[0] and "/#" not in ga[0]:
+            # the call sits in an inlined generic helper: callee_args still prints the helper's type parameter (`<R as ..>`),
+            # the engine-substituted generic arguments carry the caller's concrete Self type
+            return norm_ty(ga[0])
+        return x
     # inherent / default method named through the type: `X::method`
     return None
 
